@@ -10,7 +10,38 @@ def sh(cmd, cwd=None, timeout=3600):
     r = subprocess.run(cmd, cwd=cwd, shell=True, stdout=subprocess.PIPE, stderr=subprocess.STDOUT, text=True, timeout=timeout)
     return r.returncode, r.stdout
 
+def verify_py(name, wt):
+    """demonstration is a Python script driving the built binaries (client programs)"""
+    d = os.path.join(V, "seeded", name)
+    os.makedirs(d, exist_ok=True)
+    shutil.copy(os.path.join(wt, "mutation.patch"), os.path.join(d, "patch.diff"))
+    shutil.copy(os.path.join(wt, "demo_mut.py"), os.path.join(d, "demo_mut.py"))
+    res = {"worktree": wt, "demo": "demo_mut.py"}
+    rc, out = sh("git apply --check -R mutation.patch", cwd=wt)
+    if rc != 0:
+        sh("git apply mutation.patch", cwd=wt)
+    rc, out = sh("cargo test --workspace --offline 2>&1 | grep -E '^test result|FAILED|^error' ", cwd=wt)
+    res["suite_with_change"] = out.strip().splitlines()
+    res["suite_passes_with_change"] = (not any('FAILED' in l or l.startswith('error') for l in out.splitlines())) and out.count('test result: ok') >= 8
+    sh("cargo build -p rsadsb_apps --offline", cwd=wt)
+    rc, out = sh("python3 demo_mut.py 2>&1 | tail -3", cwd=wt, timeout=600)
+    rc2, _ = sh("python3 demo_mut.py >/dev/null 2>&1", cwd=wt, timeout=600)
+    res["demo_with_change"] = out.strip().splitlines()
+    res["demo_fails_with_change"] = rc2 != 0
+    sh("git apply -R mutation.patch", cwd=wt)
+    sh("cargo build -p rsadsb_apps --offline", cwd=wt)
+    rc, out = sh("python3 demo_mut.py 2>&1 | tail -3", cwd=wt, timeout=600)
+    rc2, _ = sh("python3 demo_mut.py >/dev/null 2>&1", cwd=wt, timeout=600)
+    res["demo_without_change"] = out.strip().splitlines()
+    res["demo_passes_without_change"] = rc2 == 0
+    sh("git apply mutation.patch", cwd=wt)
+    json.dump(res, open(os.path.join(d, "verify.json"), "w"), indent=1)
+    print(name, res["suite_passes_with_change"], res["demo_fails_with_change"], res["demo_passes_without_change"])
+
+
 def verify(name, wt):
+    if os.path.exists(os.path.join(wt, "demo_mut.py")):
+        return verify_py(name, wt)
     d = os.path.join(V, "seeded", name)
     os.makedirs(d, exist_ok=True)
     shutil.copy(os.path.join(wt, "mutation.patch"), os.path.join(d, "patch.diff"))
